@@ -5,7 +5,7 @@
 # then runs the named checks against it and files it under /verif/seeded/<id>/.
 set -u
 ID="$1"; shift
-W="/tmp/seed-$ID"; S="$W/seed"
+W="${SEED_PREFIX:-/tmp/seed-}$ID"; S="$W/seed"; SUF="${SEED_SUFFIX:-}"
 [ -f "$S/patch.diff" ] || { echo "no patch in $S"; exit 2; }
 cd "$W"
 git apply --check -R "$S/patch.diff" 2>/dev/null || { echo "worktree does not have the change applied; applying"; git checkout -q -- . ; git apply "$S/patch.diff" || exit 2; }
@@ -25,13 +25,14 @@ for id in "$@"; do
     grep 'ENGINE-ERROR' "/tmp/seed-$ID.$id.log" | head -2
     ran="$ran $id:$rc:$n"
 done
-D="/verif/seeded/$ID"; mkdir -p "$D"
+D="/verif/seeded/$ID$SUF"; mkdir -p "$D"
 cp "$S/patch.diff" "$D/patch.diff"
 for f in "$S"/*; do case "$(basename "$f")" in patch.diff) ;; *) [ -f "$f" ] && [ "$(stat -c %s "$f")" -lt 200000 ] && file "$f" | grep -qv ELF && cp "$f" "$D/"; esac; done
-python3 - "$ID" "$with" "$without" "$base" "$ran" <<'PY'
+python3 - "$ID" "$with" "$without" "$base" "$ran" "$SUF" <<'PY'
 import json,sys,os
 ID,w,wo,base,ran=sys.argv[1:6]
-d='/verif/seeded/'+ID
+suf=sys.argv[6] if len(sys.argv)>6 else ''
+d='/verif/seeded/'+ID+suf
 meta_txt=open(d+'/meta.txt').read() if os.path.exists(d+'/meta.txt') else ''
 checks=[]
 for r in ran.split():
